@@ -160,6 +160,7 @@ m('C16', G, '\tfor e, mc := range gme.pools {\n\t\tmc.stopMonitoring()\n\t\tif e
 m('C16', G, '\tgo mc.monitor(ctx)', '\tgo mc.monitor(ctx)\n\tgo mc.notify(connectivity.Idle)', 'extra goroutine nobody stops')
 m('C16', G, '\t// Remove obsolete MultiEndpoints.', '\tif len(gme.mes) > 8 {\n\t\treturn fmt.Errorf("too many multiendpoints")\n\t}\n\t// Remove obsolete MultiEndpoints.', 'rejection after the MultiEndpoints were changed')
 
+m('C16', 'grpcgcp/gcp_multiendpoint.go', 'if !mc.conn.WaitForStateChange(ctx, currentState) {', 'if !mc.conn.WaitForStateChange(ctx, currentState) && currentState != connectivity.Idle {', 'monitor keeps looping after its context ended on one path')
 # ---------------- C17
 m('C17', B, '\tmp := make(map[string]*pb.AffinityConfig)', '\tif cp.GetUnresponsiveCalls() == 0 {\n\t\tcp.UnresponsiveCalls = 3\n\t}\n\tmp := make(map[string]*pb.AffinityConfig)', 'a fourth field is defaulted')
 m('C17', B, '\tdefaultMaxSize     = 4', '\tdefaultMaxSize     = 8', 'wrong default constant')
